@@ -496,6 +496,9 @@ func (i ICMPv6Option) String() string {
 				binary.BigEndian.Uint32(i.Data[2:]))
 		}
 	case ICMPv6OptRecursiveDNSServer:
+		if len(i.Data) < 6 {
+			break
+		}
 		lifetime := time.Duration(binary.BigEndian.Uint32(i.Data[2:6])) * time.Second
 		num := (len(i.Data) - 6) / 16
 		ips := make([]string, num)
